@@ -340,6 +340,15 @@ Proof.
   rewrite I1, I2, I3, I4. auto.
 Qed.
 
+Lemma construct_times h dt ls cp f :
+  let h' := fst (construct h dt ls cp f) in
+  tcs h' = tcs h /\ trs h' = trs h /\ tlists h' = tlists h /\ tvars h' = tvars h.
+Proof.
+  unfold construct.
+  pose proof (extend_locs_times (push_em h (mkE dt [])) (length (ems h)) ls cp f) as X.
+  destruct (extend_locs (push_em h (mkE dt [])) (length (ems h)) ls cp f) as [h1 [|x]]; simpl in *; auto.
+Qed.
+
 Lemma Aligned_build_tc h es ts : wf h -> Aligned h -> Aligned (fst (build_tc h es ts)).
 Proof.
   intros W A. unfold build_tc. destruct (copy_ems h es) as [h1|] eqn:Ec; simpl; auto.
@@ -367,7 +376,7 @@ Theorem aligned_step h o : wf h -> Aligned h -> Aligned (fst (exec h o)).
 Proof.
   intros W A. destruct_op o; simpl;
     try (unfold exec_new, exec_view, exec_seth, exec_append,
-           exec_get, exec_setm, exec_copy, exec_slice, exec_add, exec_remove_small,
+           exec_get, exec_setm, exec_copy, exec_slice, exec_sel, exec_add, exec_remove_small,
            exec_remove_overlap, exec_link, exec_writea, exec_merge, exec_tcappend_bad,
            exec_trappend_bad, exec_trget, exec_tlnew, exec_tlremove,
            append_loc, em_add, new_em_from, write_loc, write_sloc;
@@ -405,6 +414,27 @@ Proof.
   - (* tlistset *) unfold exec_tlistset. destruct (nth_error (tvars h) j) as [tl|] eqn:Ej; simpl; auto.
     destruct (times_of h tl) as [ts0|]; simpl; auto. destruct (i <? length ts0); simpl; auto.
     eapply (Aligned_tlist_write h _ j tl); eauto; reflexivity.
+  - (* emctor *) unfold exec_emctor. dm; simpl; auto;
+      match goal with |- context [construct ?h ?d ?l ?cp ?f] =>
+        destruct (construct_times h d l cp f) as (X1 & X2 & X3 & X4) end;
+      apply (Aligned_same h); auto.
+  - (* emclone *) unfold exec_emclone. dm; simpl; auto.
+    match goal with |- context [construct ?h ?d ?l ?cp ?f] =>
+      destruct (construct_times h d l cp f) as (X1 & X2 & X3 & X4) end.
+    apply (Aligned_same h); auto.
+  - (* tcsel *) unfold exec_tcsel. dm; simpl; auto; apply Aligned_build_tc; auto.
+  - (* trsel *) unfold exec_trsel. dm; simpl; auto; apply Aligned_build_tr; auto.
+  - (* tcclone *) unfold exec_tcclone. destruct (nth_error (tcs h) t) as [tc|] eqn:Et; simpl; auto.
+    destruct (times_of h (tc_tl tc)) as [ts|] eqn:Hts; simpl; auto.
+    destruct (mapM (nth_error (ems h)) (tc_ems tc)) as [es|] eqn:E; simpl; auto.
+    destruct (clone_ems_inv h es W (wf_mapM_ems _ _ _ W E)) as (_ & _ & _ & T2 & T3 & _ & _ & T6 & T7 & _).
+    destruct (clone_ems h es) as [h1 [|x]]; simpl in *; auto.
+    apply (Aligned_push_tc h _ ts (new_cids h (length es)) W A); hs; auto.
+    + unfold new_cids. rewrite seq_length, (mapM_length _ _ _ E).
+      destruct A as (_ & A1 & _). pose proof (Forall_nth_error _ _ _ _ A1 Et) as X.
+      unfold tc_aligned, tc_times in X. rewrite (tl_get_some _ _ _ Hts) in X. exact X.
+    + rewrite T2. reflexivity.
+    + rewrite T6. reflexivity.
 Qed.
 
 (* times and members stay aligned, and no times list is shared, under EVERY operation sequence *)
